@@ -248,7 +248,8 @@ func runC20(rec *vkit.Recorder, c *c20Case) []vkit.Violation {
 		for j := range jobs {
 			out = append(out, j)
 		}
-		sort.Strings(out)
+		// listed in descending order: nothing may rely on the scrape configs being sorted by name
+		sort.Sort(sort.Reverse(sort.StringSlice(out)))
 		return out
 	}
 	c20DropRegex, c20RuleStyle = "drop_.*", c.RuleStyle
